@@ -82,8 +82,9 @@ func (prog *Prog) Dump(dest io.Writer) error {
 	for _, v := range prog.constants {
 		// all but string can fit in a fixed buffer
 		if s, ok := v.(string); ok {
-			if 2+len(s) > len(p) {
-				p = make([]byte, 2+len(s))
+			// type byte + up to 9 bytes of length + payload
+			if need := 1 + 9 + len(s); need > len(p) {
+				p = make([]byte, need)
 			}
 		}
 		n = valueToBytes(p, v)
